@@ -1,5 +1,10 @@
 import ZCV.Lemmas.OverrideBad
 import ZCV.Lemmas.Datatypes
+import ZCV.Lemmas.NoInternalLower
+import ZCV.Lemmas.DischargeElab
+import ZCV.Lemmas.DischargeExamples
+import ZCV.Props.C09
+import ZCV.Props.C10
 /-!
 C14 — command-line overrides act like editing the addressed keys in the text.
 
@@ -435,5 +440,101 @@ example : conv1.key sch1.top.keytype ['Z'] = .ok ['z'] ∧ keyRejected conv1 sch
 example : DT.basicKey ['1', 'a'] = .error .valueError := by rw [DT.basicKey_eq_spec]; rfl
 
 end Ex
+
+/-! ### the table hypotheses discharged -/
+
+/-- `C14_text_override_eq_edit` without the table hypothesis: `hlow` is discharged by the proved `lower_idem` -/
+theorem C14_text_override_eq_edit' (conv : Conv) (env : Env) (pkgs : Str → Pkg) (s : Schema) (url : Option Str)
+    (lines : List Str) (specs : List Str)
+    (hs : schemaOK s = true) (hkeys : ∀ p ∈ s.types, lower p.1 = p.1)
+    (hidem : KeyIdemOn conv s)
+    (hni : ∀ l ∈ lines, NoImportLine l) (hres : ∀ u ls, env.res u = some ls → ∀ l ∈ ls, NoImportLine l)
+    (hovs : ∀ ovs, specs.mapM addOption = .ok ovs → OvsOK ovs) :
+    (load conv env pkgs s url lines specs).toOption.map (·.value) =
+      (specs.mapM addOption).toOption.bind fun ovs =>
+        (treeOf env url lines).toOption.bind fun items =>
+          (edit conv s items ovs).toOption.bind fun items' => (loadTree conv s items').toOption :=
+  C14_text_override_eq_edit conv env pkgs s url lines specs hs ZCV.lower_idem hkeys hidem hni hres hovs
+
+/-- `C14_keyIdem_stock` with `ipaddr-or-hostname` included: a schema whose key types are among the four key types of
+    the stock table (`basic-key`, `identifier`, `ipaddr-or-hostname`, `string`) satisfies the idempotence hypothesis -/
+theorem C14_keyIdem_stock_all (s : Schema)
+    (h : ∀ t, InSchema s t → String.ofList t.keytype = "basic-key" ∨ String.ofList t.keytype = "identifier" ∨
+      String.ofList t.keytype = "ipaddr-or-hostname" ∨ String.ofList t.keytype = "string") :
+    KeyIdemOn stockConv s := by
+  intro t ht k r hk
+  exact ZCV.Props.C09.C09_keytypes_idempotent' t.keytype (h t ht) k r hk
+
+/-- e.g. a schema whose only key type is `ipaddr-or-hostname` (not covered by `C14_keyIdem_stock`) -/
+example : KeyIdemOn stockConv
+    { types := [], top := { name := none, keytype := "ipaddr-or-hostname".toList, datatype := [], children := [] },
+      handler := none, components := [] } := by
+  apply C14_keyIdem_stock_all
+  intro t ht
+  rcases ht with rfl | ⟨ty, h⟩
+  · right; right; left; decide
+  · simp [Schema.gettype] at h
+
+/-- in fact the stock key-conversion table is idempotent outright — a key type outside the four converts nothing — so
+    EVERY schema satisfies the idempotence hypothesis under the stock datatype functions -/
+theorem C14_keyIdem_stockConv : KeyIdem stockConv := by
+  intro kt k r hk
+  by_cases h : kt ∈ ["basic-key".toList, "identifier".toList, "ipaddr-or-hostname".toList, "string".toList]
+  · exact ZCV.Props.C09.C09_keytypes_idempotent kt h k r hk
+  · have hu : stockKey kt k = .error (.other "unknown-keytype".toList) := ZCV.Props.C09.C09_keytypes_all kt h k
+    have hk' : stockKey kt k = .ok r := hk
+    rw [hu] at hk'; cases hk'
+
+/-- … for every schema -/
+theorem C14_keyIdemOn_stockConv (s : Schema) : KeyIdemOn stockConv s := C14_keyIdem_stockConv.on s
+
+/-- **End to end.**  For the schema object `S` of ANY schema document the schema loader accepts (`hkey`: the key types
+    the schema loader uses never turn a non-empty name into the empty string), any datatype functions whose key types
+    in use are idempotent, any text without `%import` and any specifiers whose section-selecting path components are
+    basic keys: the configuration returned with the overrides is the one returned for the tree of the text edited as
+    the specifiers ask.  `schemaOK`, `hlow`, `hkeys` are discharged (C10, `lower_idem`, `elab_types_keys_lower`). -/
+theorem C14_end_to_end (eenv : Elab.Env) (fuel : Nat) (doc : Elab.Node) (S : Schema)
+    (hkey : ∀ (kt s r : Str), s ≠ [] → eenv.conv.key kt s = .ok r → r ≠ [])
+    (hS : Elab.elabSchema eenv fuel doc = .ok S)
+    (conv : Conv) (env : Env) (pkgs : Str → Pkg) (url : Option Str) (lines : List Str) (specs : List Str)
+    (hidem : KeyIdemOn conv S)
+    (hni : ∀ l ∈ lines, NoImportLine l) (hres : ∀ u ls, env.res u = some ls → ∀ l ∈ ls, NoImportLine l)
+    (hovs : ∀ ovs, specs.mapM addOption = .ok ovs → OvsOK ovs) :
+    (load conv env pkgs S url lines specs).toOption.map (·.value) =
+      (specs.mapM addOption).toOption.bind fun ovs =>
+        (treeOf env url lines).toOption.bind fun items =>
+          (edit conv S items ovs).toOption.bind fun items' => (loadTree conv S items').toOption :=
+  C14_text_override_eq_edit' conv env pkgs S url lines specs
+    (ZCV.Props.C10.C10_elab_schemaOK eenv fuel doc S hkey hS) (Elab.elab_types_keys_lower hS) hidem hni hres hovs
+
+/-- the same with the stock datatype functions on both sides (schema loader and configuration loader): the only
+    hypotheses left are about the text (no `%import`) and the specifiers (`OvsOK`) -/
+theorem C14_end_to_end_stock (eenv : Elab.Env) (fuel : Nat) (doc : Elab.Node) (S : Schema)
+    (hconv : eenv.conv = stockConv) (hS : Elab.elabSchema eenv fuel doc = .ok S)
+    (env : Env) (pkgs : Str → Pkg) (url : Option Str) (lines : List Str) (specs : List Str)
+    (hni : ∀ l ∈ lines, NoImportLine l) (hres : ∀ u ls, env.res u = some ls → ∀ l ∈ ls, NoImportLine l)
+    (hovs : ∀ ovs, specs.mapM addOption = .ok ovs → OvsOK ovs) :
+    (load stockConv env pkgs S url lines specs).toOption.map (·.value) =
+      (specs.mapM addOption).toOption.bind fun ovs =>
+        (treeOf env url lines).toOption.bind fun items =>
+          (edit stockConv S items ovs).toOption.bind fun items' => (loadTree stockConv S items').toOption :=
+  C14_end_to_end eenv fuel doc S
+    (by intro kt s r hs hr; rw [hconv] at hr; exact Elab.stockConv_key_ne_nil kt s r hs hr) hS stockConv env pkgs url
+    lines specs (C14_keyIdemOn_stockConv S) hni hres hovs
+
+/-- the hypotheses are satisfiable: accepted schema document (base schema + component, stock key types), import-free
+    four-line text, no includable resources, no specifiers -/
+example : ∃ S, Elab.elabSchema Elab.Example.env 1 Elab.Example.doc = .ok S ∧
+    (load stockConv Ex.env Ex.pkgs S none DischargeEx.lines []).toOption.map (·.value) =
+      (([] : List Str).mapM addOption).toOption.bind fun ovs =>
+        (treeOf Ex.env none DischargeEx.lines).toOption.bind fun items =>
+          (edit stockConv S items ovs).toOption.bind fun items' => (loadTree stockConv S items').toOption := by
+  obtain ⟨S, hS⟩ := DischargeEx.dis_ex_doc_accepted
+  refine ⟨S, hS, C14_end_to_end_stock _ 1 _ S DischargeEx.dis_ex_env_stock hS _ _ _ _ _
+    DischargeEx.dis_ex_lines_noImport DischargeEx.dis_ex_res ?_⟩
+  intro ovs h
+  simp only [List.mapM_nil, pure, Except.pure, Except.ok.injEq] at h
+  subst h
+  intro o ho; cases ho
 
 end ZCV.Props.C14
